@@ -198,6 +198,14 @@ partial def ptJson : PT Sym → Json
 
 def handler : Handler := fun op j =>
   match op with
+  | "getslice" => do        -- indices (into a list of n blocks) that x[start:stop:step] selects
+    let n ← fNat? j "n"
+    let oi := fun (k : String) => match field? j k with
+      | some v => (getInt? v)
+      | none => none
+    match getSlice (α := Nat) (δ := Unit) ⟨fun _ => true, Except.ok, fun _ => ()⟩ (List.range n) (oi "start") (oi "stop") (oi "step") with
+    | .error e => some (errReply e)
+    | .ok l => some (ok (jArr (l.map (fun (i : Nat) => jN i))))
   | "tree_unflatten" => do
     let s ← ptUnitOfJson? (← field? j "struct")
     let leaves ← (← fList? j "leaves").mapM Sym.ofJson?
